@@ -1,6 +1,6 @@
 (* Finite theorems over the tables regenerated from the Go sources on every run. *)
 From Coq Require Import List String Bool ZArith.
-From LLIR Require Import Gen.Operands Gen.Locks Gen.MapLoops Model.Concurrency Proofs.ConcurrencyProofs.
+From LLIR Require Import Gen.Operands Gen.Locks Gen.MapLoops Gen.WriterTable Model.Concurrency Proofs.ConcurrencyProofs.
 Import ListNotations.
 Local Open Scope string_scope.
 
@@ -84,3 +84,16 @@ Theorem loops_ok : forallb loop_ok map_loops = true.
 Proof. vm_compute. reflexivity. Qed.
 Theorem number_of_map_loops : List.length map_loops = 18.
 Proof. vm_compute. reflexivity. Qed.
+
+(* ---- C19: the writer the model of Model/Writer.v describes is the one in the source ----
+   each of the three fmtWriter methods is, statement by statement:  if fw.err != nil { return 0, nil };
+   n, err = fmt.F(fw.w, ..);  fw.size += int64(n);  fw.err = err;  return n, err  -- one write on the underlying
+   writer, counted and latched unconditionally; WriteTo wraps the caller's writer first and returns the
+   writer's counters last *)
+Definition writer_row_ok (r : writer_row) : bool :=
+  Nat.eqb (w_stmts r) 5 && w_guard r && w_on_underlying r && w_counts r && w_latches r && w_returns r &&
+  String.eqb (w_call r) ("fmt." ++ w_method r).
+Theorem fmtwriter_is_the_model :
+  forallb writer_row_ok writer_rows = true /\ map w_method writer_rows = ["Fprint"; "Fprintf"; "Fprintln"] /\
+  writeto_first_stmt = "fw := &fmtWriter{w: w}" /\ writeto_last_stmt = "return fw.size, fw.err".
+Proof. vm_compute. repeat split. Qed.
